@@ -13,29 +13,42 @@ ASSUMPTIONS = [
 ]
 
 
-def rand_script(rnd, n0, maxlen, malformed=False):
+PROFILES = {  # cumulative thresholds: insert, replace, delete, ranged delete (rest: swap)
+    'mixed': (0.25, 0.45, 0.62, 0.82),
+    'insert-heavy': (0.72, 0.80, 0.87, 0.93),      # chunks grow to capacity, carries travel through grown chunks
+    'delete-heavy': (0.10, 0.18, 0.60, 0.92),      # chunks empty out, merges
+}
+
+
+def rand_script(rnd, n0, maxlen, malformed=False, profile='mixed'):
     n = n0; script = []
     k = rnd.randrange(0, maxlen + 1)
     bad_at = rnd.randrange(0, k) if (malformed and k > 0) else None
+    t_ins, t_rep, t_del, t_rng = PROFILES[profile]
+    anchors = [rnd.randrange(0, n0 + 1) for _ in range(rnd.randrange(1, 4))]   # insertions cluster around a few positions
     for j in range(k):
         r = rnd.random()
         bad = (j == bad_at)
         if n == 0 and not bad:
             script.append(['Insert', rnd.randrange(1000), 0]); n += 1; continue
-        if r < 0.25:
-            i = rnd.randrange(0, n + 1) if not bad else None
+        if r < t_ins:
+            if profile != 'mixed' and rnd.random() < 0.75:
+                i = max(0, min(n, rnd.choice(anchors) + rnd.randrange(-2, 3)))
+            else:
+                i = rnd.randrange(0, n + 1)
+            i = i if not bad else None
             if bad:
                 script.append(['Replace', 5, n + rnd.randrange(0, 3)]); break
             script.append(['Insert', rnd.randrange(1000), i]); n += 1
-        elif r < 0.45:
+        elif r < t_rep:
             if bad:
                 script.append(['Replace', 5, n + rnd.randrange(0, 3)]); break
             script.append(['Replace', rnd.randrange(1000), rnd.randrange(0, n)])
-        elif r < 0.62:
+        elif r < t_del:
             if bad:
                 script.append(['Delete', n + rnd.randrange(0, 3), 'None']); break
             script.append(['Delete', rnd.randrange(0, n), 'None']); n -= 1
-        elif r < 0.82:
+        elif r < t_rng:
             if bad:
                 lo = rnd.randrange(0, n + 1); script.append(['Delete', lo, ['Some', n + rnd.randrange(0, 3)]]); break
             lo = rnd.randrange(0, n); hi = min(n - 1, lo + int(rnd.expovariate(1 / 10.0)))
@@ -55,7 +68,9 @@ def cases(tier, seed):
         n0 = rnd.choice([0, 1, 2, 5, 8, 9, 15, 16, 17, 40, 100, 200])
         L = [1000 + i for i in range(n0)]
         bad = (k % 10 == 9)
-        out.append((L, rand_script(rnd, n0, rnd.choice([1, 3, 8, 30]), malformed=bad), bad))
+        profile = ('mixed', 'mixed', 'insert-heavy', 'delete-heavy', 'insert-heavy')[k % 5]
+        maxlen = rnd.choice([1, 3, 8, 30]) if profile == 'mixed' else rnd.choice([12, 30, 60])
+        out.append((L, rand_script(rnd, n0, maxlen, malformed=bad, profile=profile), bad))
     return out
 
 
